@@ -33,6 +33,7 @@ func init() {
 					r.Unresolved("no error assignment found")
 				}
 			}},
+			{ID: "C05.R15", Floor: 1, Doc: "the session's event debouncers, which the event path uses without a nil test, are assigned unconditionally in NewSession, before any connection can deliver an EVENT frame", Run: c05DebouncersExist},
 			{ID: "C05.R14", Floor: 20, Doc: "no field is accessed through a pointer at a point where a dominating test found the pointer nil (every function of the module)", Run: func(p *Program, r *Report) {
 				if nilDerefs(p, r, func(fi *FuncInfo) bool { return true }) == 0 {
 					r.Unresolved("no pointer is tested against nil anywhere")
